@@ -53,6 +53,38 @@ CLAIMS.update({
         technique="MIR-to-SMT-LIB2 symbolic execution of the AVX2 kernels decided by z3 and cvc5 (all 256^32 blocks) + Kani/CBMC bounded model checking of the scalar and chunking code"),
 })
 
+PART = " PARTIAL CLAIM: "
+CLAIMS.update({
+    "C02": dict(
+        text="The join decision every node is built from — one call of the private try_extend_kmer, driven through an add-only hook from an ARBITRARY valid table (1-3 rows, all keys/extension sets/payloads), availability subset, strandedness, direction and start row — is proved to return Unique(next, dir, exts) exactly when the link is the sole extension on both facing sides, joins two distinct non-palindromic k-mers, the target is present and available and the join predicate (always-true and payload-equality) accepts; otherwise Terminal with the walking side's extensions." + PART + "growth-to-exhaustion, cycle cutting and uniqueness of the decomposition live in heap loops (build_node on 2 rows > 12 GB in CBMC) and are NOT covered.",
+        note="Bounds: tables of 1-3 rows over Kmer4 / 2 rows over Kmer3 (quick), also Kmer2,5,6 with 3 rows (thorough). boomphf = model M1 (key-verified lookup). Assumed table validity: distinct keys, canonical when unstranded, reciprocal extension on the examined link (the code's documented unreachable panic). Stubs S1, S2.",
+        ref="DESIGN.md §5 C02"),
+    "C03": dict(
+        text="find_link on 2-3-node graphs for ALL 4^K query k-mers (present and absent), both directions, stranded and unstranded: Some((id, side, flip)) iff that node end spells the query (or its reverse complement, unstranded only), with the documented precedence, None otherwise; get_valid_exts/fix_exts keep a bit iff set and resolving to a valid node; remove_censored_exts and _sharded on every sorted table of <= 3 rows keep exactly the bits whose canonical target is valid / not (present-in-all-kmers and invalid) and change nothing else; the Exts algebra for all 256 sets." + PART + "equality of the edge set with the input's (K+1)-mers, u<->v symmetry on built graphs, and the best-path queries (HashSet/VecDeque/float scores) are NOT covered; find_edges lists only in the thorough tier (SmallVec pushes at symbolic offsets exceed 12 GB).",
+        note="Bounds: K in {3,4}, node lengths K..K+1, graphs of 2 nodes (quick) / 3 nodes (thorough); censoring tables over Kmer4 (quick), Kmer3/5/8 (thorough). boomphf = model M1; node-end k-mers assumed pairwise distinct per side (MPHF precondition). Stubs S1, S2.",
+        ref="DESIGN.md §5 C03"),
+    "C05": dict(
+        text="Decided on real code: CountFilter::summarize and CountFilterSet::summarize over every sequence of <= 3 (thorough 4) observations for all thresholds (validity flag, extension union, count, sorted de-duplicated labels); the observation iterator iter_kmer_exts (true flanks, boundary sets only at the read ends) for all reads up to K+3 bases; and the per-observation canonicalisation lemma built from the real min_rc_flip / Exts::rc." + PART + "the composition inside filter_kmers (256 bucket Vecs, stable sort, group_by, pass planner, independence of the memory budget) is NOT decided: even with concrete read texts the first bucket iteration does not finish (12 GB / 25 min); the canonicalisation is composed in the harness exactly as filter_kmers composes it, so a change inside filter_kmers' inline loop is not detected by this check.",
+        note="Bounds: K in {3,4} quick, {5,6,8} thorough; reads <= K+3 bases. Trusted: Kani/CBMC, the harness copy of the 5-line canonicalisation. Stub S1 for the label vector.",
+        ref="DESIGN.md §5 C05"),
+    "C06": dict(
+        text="Per-read strand lemma on real library code: for every read R (<= K+2 bases, all boundary extension sets) and its reverse complement with reverse-complemented boundary sets, observation i of R and observation n-K-i of rc(R) are reverse complements, canonicalise to the same key (= min(k, rc k)) and, unless the k-mer is its own reverse complement, to the same extension set, which equals the true flanks of the canonical strand; in stranded mode the transform is the identity. Graph side: the join decision (C02) is stated and proved in canonical coordinates for both strand flips." + PART + "equality of whole tables/graphs under reverse-complementing subsets of reads is a pipeline property (filter_kmers / compress loops) and is NOT decided.",
+        note="Bounds: K in {3,4} quick, {5,6,8} thorough. Same trust base as C05; the canonicalisation composition is the harness copy.",
+        ref="DESIGN.md §5 C06"),
+    "C07": dict(
+        text="Scanner::scan over every read of N bases with P=Kmer2 and a fully symbolic 16-entry score table (every score function on 2-mers, ties and constants included): intervals in start order, consecutive overlap exactly k-1, first at 0 and last ending at N, k <= len <= 2k-p, reported minimizer = p-mer at the reported position, inside every k-mer of the interval, minimal over all p-mers of the interval, and no interval ends while the next k-mer still contains the minimizer and brings no strictly better p-mer.",
+        note="Bounds (the honest limit of CBMC's heap model): (N,k) in {(2..5,2),(3..4,3),(4..5,4)} quick, plus (5..6,3),(6,4) thorough — i.e. at most 3-4 k-mers per read; P=Kmer2 and the DnaSlice container only (other containers differ in get/get_kmer, decided under C13). Stubs S1, S2.",
+        ref="DESIGN.md §4 C07"),
+    "C08": dict(
+        text="msp_sequence::<Kmer2, Lmer1> with a symbolic injective permutation table (and the default one) and symbolic rc flag: every piece is the exact substring, its boundary extensions are exactly the flanking bases (none at a read end), the pieces tile the read with k-1 overlap, and every k-mer of every piece carries bucket == canonical form of the arg-min p-mer of that k-mer alone (a pure function of the k-mer, symmetric under reverse complement in rc mode).",
+        note="Bounds: quick tier N == k (one k-mer per read; k in {3,4}); thorough N = k+1..k+2 (up to 3 k-mers; symbolic permutation with N=k+1 needs > 12 GB and runs under the 30 GB thorough cap, reported inconclusive if it does not fit). P=Kmer2, piece container Lmer1 only. Stubs S1, S2. Exts::from_slice_bounds separately for all positions of 6-base reads.",
+        ref="DESIGN.md §4 C08"),
+    "C09": dict(
+        text="The node-level join decision — one call of the private try_extend_node via the add-only hook on 2-3-node graphs (all bases, extension sets, payloads, availability/censor subsets, strandedness, direction, start node): Unique(node, outgoing side, exts) iff one extension, not a single-k-mer palindrome, target resolves, is available, join accepted, exactly one extension on its incoming side; fix_exts/get_valid_exts leave no extension pointing at a removed or absent node; sequence_of_path spells two nodes with K-1 overlap and reverse-complements right-entered nodes." + PART + "idempotence of re-compression, equality with the direct route and payload folding over whole paths are results of the heap loops and are NOT covered.",
+        note="Bounds: K in {3,4}, node lengths K..K+1, 2 nodes (quick) / 3 nodes (thorough). Model M1; distinct node-end k-mers per side; the examined extension resolves and its target has >= 1 facing extension (the code's documented panics otherwise). Stubs S1, S2.",
+        ref="DESIGN.md §5 C09"),
+})
+
 NOT_APPLICABLE = {
     "C01": "statement is about the result of the growth loops over BitSet/Vec/VecDeque/PackedDnaStringSet; build_node on a 2-row table exceeded 12 GB and compress_kmers on 2 rows 31 GB in CBMC — no heap-light unit carries the partition/payload claim (the join decision itself is claimed under C02)",
     "C04": "whole-pipeline equivalence (msp -> per-shard filter -> compress -> combine -> finish -> recompress, twice); every stage but the first is individually beyond the solver's reach (measured, DESIGN §8); its local ingredients are decided under C08/C05/C02/C09",
